@@ -80,12 +80,8 @@ func load(r *run, files []harnessFile) (*loaded, error) {
 	}
 	prog, roots := ssautil.AllPackages(pkgs, ssa.InstantiateGenerics)
 	ld := &loaded{prog: prog, reachLabels: map[string][]string{}, assertSites: map[string][]string{}, harnessPkg: map[string]string{}}
-	for _, p := range roots {
-		if p == nil {
-			continue
-		}
-		p.Build()
-	}
+	// build every package up front: lazy building would race with the parallel path workers
+	prog.Build()
 	prefix := "Verif" + r.prop + "_"
 	for k, p := range roots {
 		if p == nil {
